@@ -36,6 +36,16 @@ def make_scratch():
         if name.endswith(".py"):
             shutil.copy(os.path.join(simlib, name), os.path.join(scratch, name))
     os.makedirs(os.path.join(scratch, "work"))
+    # If the working tree's grammar differs from its cached LALR tables (parsetab.py), let PLY regenerate them here,
+    # once, in the scratch copy - not concurrently in every worker, and never in /repo.
+    try:
+        import subprocess
+        env = dict(os.environ, PYTHONDONTWRITEBYTECODE="1")
+        subprocess.run([sys.executable, "-B", "-c",
+                        "import sys; sys.path.insert(0, %r); import mpilot.parser.parser as p; p.Parser()" % scratch],
+                       cwd=scratch, env=env, stdout=subprocess.DEVNULL, stderr=subprocess.DEVNULL, timeout=120)
+    except Exception:  # noqa
+        pass
     return scratch
 
 
